@@ -243,15 +243,27 @@ def _adv_terms(draw, pool, nmax=3):
 def _adv(draw):
     pool = gens.NAMES[:draw(st.integers(1, 4))]
     op = draw(st.sampled_from(["simplify", "refines", "is_empty", "contains", "elim", "elim", "optimize", "compose", "quotient", "merge",
-                               "rename", "parse", "parse", "parse", "copy-roundtrip", "construct"]))
+                               "rename", "parse", "parse", "parse", "copy-roundtrip", "construct", "rename-elim", "rename-elim"]))
     case = {"part": "A", "src": "ADV", "op": op, "pool": pool, "t1": draw(_adv_terms(pool)), "t2": draw(_adv_terms(pool)),
             "elim": draw(st.lists(st.sampled_from(pool), min_size=1, max_size=len(pool), unique=True)),
             "refine": draw(st.booleans()), "simplify": draw(st.booleans()), "order": draw(gens.order_s()),
             "string": draw(st.one_of(st.sampled_from(ADV_STRINGS), _const_expr_string())), "var": draw(st.sampled_from(pool + ["unknown"]))}
-    if op in ("compose", "quotient", "merge", "rename", "optimize", "construct", "copy-roundtrip"):
+    if op in ("compose", "quotient", "merge", "rename", "optimize", "construct", "copy-roundtrip", "rename-elim"):
         ins = pool[:max(1, len(pool) // 2)]
         outs = pool[len(ins):] or ["o"]
         case["c1"] = {"a": draw(_adv_terms(ins, 2)), "g": draw(_adv_terms(ins + outs, 3)), "i": ins, "o": outs}
+        if op == "rename-elim" and len(ins + outs) >= 2:
+            # a guarantee whose coefficients cancel when the first two names of one side are identified
+            side = outs if len(outs) >= 2 else (ins if len(ins) >= 2 else None)
+            if side:
+                k = float(draw(st.sampled_from([1, 2, 3])))
+                t = {side[0]: k, side[1]: -k}
+                for v in (ins + outs):
+                    if v not in t and draw(st.booleans()):
+                        t[v] = float(draw(st.sampled_from([1, -1, 2])))
+                case["c1"]["g"].append([t, float(draw(st.integers(0, 3)))])
+                case["elim"] = [side[0]]
+                case["var"] = side[1]
         o2 = ["p"]
         i2 = outs[:1] + (ins[:1] if draw(st.booleans()) else [])
         case["c2"] = {"a": draw(_adv_terms(i2, 2)), "g": draw(_adv_terms(i2 + o2, 2)), "i": i2, "o": o2}
@@ -328,6 +340,26 @@ def _run_adv(case):
                     call("optimize", c1.optimize, case["var"], case["refine"], documented=env.STRING_DOCUMENTED)
                     call("get_variable_bounds", c1.get_variable_bounds, case["var"], documented=env.STRING_DOCUMENTED)
                     call("optimize", c1.optimize, case["string"], True, documented=env.STRING_DOCUMENTED)
+                elif op == "rename-elim":
+                    # term-list level first: TermList.rename_variable is public too and does not re-simplify
+                    sr0, g0 = call("TermList.rename_variable", c1.g.rename_variable, env.Var(case["elim"][0]), env.Var(case["var"]))
+                    if sr0 == "ok":
+                        operands.append(g0)
+                        for o in (case["order"], [3], [4, 3], [3, 1], [5], [2]):
+                            call("elim_vars_by_refining", g0.elim_vars_by_refining, c1.a, [env.Var(case["var"])], False, o)
+                            call("elim_vars_by_relaxing", g0.elim_vars_by_relaxing, c1.a, [env.Var(case["var"])], False, o)
+                        call("simplify", g0.simplify, c1.a)
+                        call("is_empty", g0.is_empty)
+                    sr, r = call("rename_variable", c1.rename_variable, env.Var(case["elim"][0]), env.Var(case["var"]))
+                    if sr == "ok":
+                        operands.append(r)
+                        ev = [env.Var(case["var"])]
+                        call("elim_vars_by_refining", r.g.elim_vars_by_refining, r.a, ev, False, case["order"])
+                        call("elim_vars_by_relaxing", r.g.elim_vars_by_relaxing, r.a, ev, False, case["order"])
+                        for o in ([3], [4, 3], [3, 5]):
+                            call("elim_vars_by_refining", r.g.elim_vars_by_refining, r.a | r.g, ev, False, o)
+                        if s2 == "ok":
+                            call("quotient_tactics", r.quotient_tactics, c2, None, False, case["order"])
                 elif op == "rename":
                     call("rename_variable", c1.rename_variable, env.Var(case["elim"][0]), env.Var(case["var"]))
                     call("rename_variables", c1.rename_variables, [(case["elim"][0], "tmp"), ("tmp", case["var"])])
